@@ -571,6 +571,24 @@ def compare(case, i, line, ir, mr):
         return ('divergence', 'invalid call (the property is about valid calls): implementation %s, model %s' % (ir, mr))
     if op == 'bindref':
         return 'inspect.getcallargs gives %s, the reference binder of the model %s (model assumption wrong)' % (ir, mr)
+    if op == 'stackhist' and ir.startswith('ok ') and mr.startswith('ok '):
+        # the property pins the number of executions for a NON-RAISING f only: when all replies agree and the execution counts
+        # part only from the first raising / invalid call onwards (how often try_value / the cache's except path re-run a failing
+        # function), the model and the code differ in something the statement does not fix
+        try:
+            iv, mv = proto.dec(proto.parse(ir[3:])), proto.dec(proto.parse(mr[3:]))
+            calls = proto.parse(line)[4][1:]
+            if len(iv) == len(mv) == len(calls) and all(enc(x[0]) == enc(y[0]) for x, y in zip(iv, mv)):
+                j = next(k for k, (x, y) in enumerate(zip(iv, mv)) if x[1] != y[1])
+
+                def failing(k):
+                    a, kw = proto.dec(calls[k][1]), proto.dec(calls[k][2])
+                    f = make_fn(sig_dec(proto.parse(line)[2]))
+                    return isinstance(res_val(lambda: f(*unmark(a), **unmark(kw))), tuple)
+                if any(failing(k) for k in range(j + 1)):
+                    return ('divergence', 'executions of a raising function differ (not pinned by the property): implementation %s, model %s' % (ir, mr))
+        except Exception:
+            pass
     return 'implementation %s, model %s' % (ir, mr)
 
 
